@@ -253,6 +253,7 @@ static int child_main(Engine &e) {
     g_log.reset();
     ctx_clear();
     scrub_stack();
+    env_reseed(p.seed);
     Outcome o = e.execute(p);
     publish_outcome(sh, o);
     fflush(stdout);
@@ -669,6 +670,7 @@ int sim_main(int argc, char **argv) {
         Plan p;
         std::string err;
         if (!path || !Plan::load(path, p, err)) return 3;
+        env_reseed(p.seed);
         Outcome o = e->execute(p);
         print_result(o);
         fflush(stdout);
@@ -740,6 +742,7 @@ int sim_main(int argc, char **argv) {
                 stat("cold_start_runs");
             } else {
                 alarm(e->hang_timeout_s()); // backstop only: a run that never returns kills the worker
+                env_reseed(p.seed);
                 o = e->execute(p);
                 alarm(0);
             }
